@@ -12,19 +12,19 @@ def itemOut : StreamItem → String
 def allValid (l : List Bytes) : Bool := l.all validUtf8
 
 /-- Follow `next_page_token` from the first page to the end. -/
-def walkPages (sys : Sys) (mk : Bytes → Req) : Nat → Bytes → List String → String
-  | 0, _, acc => " | ".intercalate acc.reverse
+def walkPages (sys : Sys) (mk : Bytes → Req) : Nat → Bytes → List String → Sys × String
+  | 0, _, acc => (sys, " | ".intercalate acc.reverse)
   | fuel + 1, tok, acc =>
-    match (sys.rpc (mk tok)).2 with
-    | .names ns next =>
+    match sys.rpc (mk tok) with
+    | (sys', .names ns next) =>
       let acc' := ("ok " ++ joinList (ns.map hexOfBytes) ",") :: acc
-      if next.isEmpty then " | ".intercalate acc'.reverse
-      else walkPages sys mk fuel (next.map UInt8.ofNat) acc'
-    | .subs rs next =>
+      if next.isEmpty then (sys', " | ".intercalate acc'.reverse)
+      else walkPages sys' mk fuel (next.map UInt8.ofNat) acc'
+    | (sys', .subs rs next) =>
       let acc' := ("ok " ++ joinList (rs.map subResOut) ",") :: acc
-      if next.isEmpty then " | ".intercalate acc'.reverse
-      else walkPages sys mk fuel (next.map UInt8.ofNat) acc'
-    | r => " | ".intercalate ((respOut r) :: acc).reverse
+      if next.isEmpty then (sys', " | ".intercalate acc'.reverse)
+      else walkPages sys' mk fuel (next.map UInt8.ofNat) acc'
+    | (sys', r) => (sys', " | ".intercalate ((respOut r) :: acc).reverse)
 
 /-- One op. `none` state = no `new` yet. -/
 def seqStep (sys : Sys) (line : String) : Sys × String :=
@@ -54,15 +54,15 @@ def seqStep (sys : Sys) (line : String) : Sys × String :=
   | ["wtopics", a, sz] =>
     let b := bytesOfHex a
     if !validUtf8 b then (sys, "skip") else
-    (sys, walkPages sys (fun tok => .listTopics b (parseInt sz) tok) 100000 [] [])
+    (walkPages sys (fun tok => .listTopics b (parseInt sz) tok) 100000 [] [])
   | ["wsubs", a, sz] =>
     let b := bytesOfHex a
     if !validUtf8 b then (sys, "skip") else
-    (sys, walkPages sys (fun tok => .listSubs b (parseInt sz) tok) 100000 [] [])
+    (walkPages sys (fun tok => .listSubs b (parseInt sz) tok) 100000 [] [])
   | ["wtsubs", a, sz] =>
     let b := bytesOfHex a
     if !validUtf8 b then (sys, "skip") else
-    (sys, walkPages sys (fun tok => .listTopicSubs b (parseInt sz) tok) 100000 [] [])
+    (walkPages sys (fun tok => .listTopicSubs b (parseInt sz) tok) 100000 [] [])
   | ["csub", n, t, dl, push] =>
     let nb := bytesOfHex n; let tb := bytesOfHex t
     if !allValid [nb, tb] then (sys, "skip") else
@@ -133,8 +133,8 @@ def seqStep (sys : Sys) (line : String) : Sys × String :=
     let b := bytesOfHex n
     if !validUtf8 b then (sys, "skip") else
     match sys.stats b with
-    | none => (sys, "none")
-    | some (o, bl, t) => (sys, toString o ++ " " ++ toString bl ++ " " ++ hexOfBytes t)
+    | (_, none) => (sys, "none")
+    | (sys', some (o, bl, t)) => (sys', toString o ++ " " ++ toString bl ++ " " ++ hexOfBytes t)
   | ["registry"] =>
     -- sorted by (display name) hex, as the harness does
     let items := sys.registry.map (fun e => hexOfBytes (displaySub e.1) ++ ">" ++ hexOfBytes e.2.endpoint)
